@@ -372,6 +372,14 @@ func main() {
 		h.model = m
 		defer m.Close()
 	}
+	if settle, err := engine.DetectSettle(); err != nil {
+		fmt.Fprintln(os.Stderr, "cannot probe the serial executor:", err)
+		os.Exit(2)
+	} else if settle {
+		run.Note("serial executor under test: repaired (settleSerialPromises; F-11a fixed) — model asked for mutation-settle")
+	} else {
+		run.Note("serial executor under test: unrepaired (F-11a open) — model asked for mutation")
+	}
 	run.SetRule("mutations (≥ 2 root fields; nested objects and lists of objects; per-invocation sync|promise|pre flags; resolver outcomes value/null/error) × fulfilment schedules through graphql.Execute; distinct = distinct case; non-trivial = a promise strictly beneath a root field that is not the last one is fulfilled by the idle handler (the situation in which a later root field could start early)")
 
 	if run.Replay != "" {
